@@ -292,11 +292,15 @@ def execute(case):
     # tracking
     tracked = []
     tt_leaves = {k: T.TT(list(v)) for k, v in c.cores.items()}
+    both_full = case["track_mode"] == "watch" and all(len(case["tracked"][l]) == d for l in ("x1", "x2"))
+    if both_full:
+        lib(lambda: T.grad.watch_list([tt_leaves["x1"], tt_leaves["x2"]]))
+        ck.label("watch_list")
     for leaf, idxs in case["tracked"].items():
         idxs = [i for i in idxs if i < len(c.cores[leaf])]
         if not idxs:
             continue
-        if case["track_mode"] == "watch":
+        if case["track_mode"] == "watch" and not (both_full and leaf in ("x1", "x2")):
             lib(lambda: T.grad.watch(tt_leaves[leaf], list(idxs)) if len(idxs) < len(c.cores[leaf]) else T.grad.watch(tt_leaves[leaf]))
         else:
             for i in idxs:
@@ -372,7 +376,12 @@ def execute(case):
                     if ck.failed is None:
                         ck.bound(fro(r - ref), 1e-12 * (gnorm + scaleL), "grad_api_value")
         else:
-            res = lib(lambda: T.grad.grad_list(val, [leaves2["x1"], leaves2["x2"]], all_in_one=False))
+            if case["seed"] % 2:
+                flat = lib(lambda: T.grad.grad_list(val, [leaves2["x1"], leaves2["x2"]]))      # all_in_one=True (default)
+                res = [flat[:d], flat[d:]] if isinstance(flat, list) and len(flat) == 2 * d else flat
+                ck.label("grad_list_all_in_one")
+            else:
+                res = lib(lambda: T.grad.grad_list(val, [leaves2["x1"], leaves2["x2"]], all_in_one=False))
             ck.require(isinstance(res, list) and len(res) == 2 and all(len(r) == d for r in res), "grad_api_len", "grad_list structure")
             if ck.failed is None:
                 for leaf, lst in zip(("x1", "x2"), res):
